@@ -308,6 +308,9 @@ def G1r(ctx, effects=None):
 # ---------------------------------------------------------------------------------------------------------------------------
 # G2 - state writes: no write dropped from a path, no new condition on a write
 
+_ASSIGN_SITES = {}
+
+
 def _write_sites(prog):
     """{(fn, "Adt.field" | "out:<type>"): [blocks]} - assignments to fields of (reference) loom types, and writes through a
     `&mut [T]` / `&mut [T; N]` parameter (the out-parameter of a candidate search)."""
@@ -323,6 +326,8 @@ def _write_sites(prog):
                 continue
             # (`x.f = v` and `match &mut x.f { .. }` / `x.f.as_mut()` are two spellings of updating the field)
             out.setdefault((w["fn"], "%s.%s" % (adt, fld)), []).append(w["bb"])
+            if w["kind"] == "assign":
+                _ASSIGN_SITES.setdefault(id(prog), {}).setdefault((w["fn"], "%s.%s" % (adt, fld)), set()).add(w["bb"])
     for key, f in prog.fns.items():
         if f.j.get("stub"):
             continue
@@ -414,8 +419,14 @@ def write_tables(prog):
             for sb2 in body.control_deps(b):
                 toks |= _tokens(prog, fk, body.expr_of_operand(body.term(sb2)["op"]))
     nsites = {}
+    # number of *assignments* per (function, field): a new assignment site is a new writer (judged elsewhere); a mutable borrow
+    # that appears next to the known assignment is a condition of that writer and is judged here
+    asg = _ASSIGN_SITES.get(id(prog), {})
     for (fk, what), bs in sites.items():
-        nsites.setdefault("%s=>%s" % (enclosing_fn(fk), what), []).extend((fk, b) for b in bs)
+        if what.startswith("out:"):
+            nsites.setdefault("%s=>%s" % (enclosing_fn(fk), what), []).extend((fk, b) for b in bs)
+        else:
+            nsites.setdefault("%s=>%s" % (enclosing_fn(fk), what), []).extend((fk, b) for b in asg.get((fk, what), ()))
     return ({k: sorted(v) for k, v in must.items() if v and prog.fns[k].kind != "Closure"}, {k: sorted(v) for k, v in vocab.items()}, nsites)
 
 
